@@ -2,8 +2,8 @@
    closed) and Proofs/C18_real.v (reals; the only theorems allowed to use the stdlib real axioms).
    The definitions are those of Model/C18.v, the same ones the correspondence evaluates against
    partitura/musicanalysis/performance_codec.py on every run. *)
-From Coq Require Import ZArith QArith List Sorting.Sorted Sorting.Permutation Reals.
-From PV Require Import Lib.Base Lib.Round Model.C18 Model.C18_Check Proofs.C18 Proofs.C18_spec Proofs.C18_tempo Proofs.C18_real.
+From Coq Require Import ZArith QArith Qabs List Sorting.Sorted Sorting.Permutation Reals.
+From PV Require Import Lib.Base Lib.Round Model.C18 Model.C18_Check Proofs.C18 Proofs.C18_spec Proofs.C18_tempo Proofs.C18_real Proofs.C18_glue Gen.C18_norm Proofs.C18_norm.
 Import ListNotations.
 #[local] Open Scope Q_scope.
 
@@ -249,3 +249,122 @@ Theorem codec_roundtrip_builtin :
     (forall j, (j < List.length so)%nat -> snd (nth j out (0, 0, 0%Z)) = dec_vel (enc_vel (nth j vel 0%Z))).
 Proof. exact codec_roundtrip_builtin_tc. Qed.
 Print Assumptions codec_roundtrip_builtin.
+
+(* ---------- hardening round 2: grouping hypothesis closed, decoder glue, time maps everywhere, rounding ---------- *)
+
+(* the one hypothesis left in codec_roundtrip_builtin: decoder (eps 1e-6 on the onsets) and encoder (keys
+   int(1e4 * onset)) group the score onsets identically whenever two onsets are equal or at least 2e-4 beat apart;
+   the decidable form sep_b is evaluated on every generated case; onsets on a grid of 1/k beat, k <= 5000, qualify *)
+Theorem onset_groupings_agree :
+  (forall so, onsets_separated so -> dec_groups so = enc_groups so) /\
+  (forall so, sep_b so = true -> onsets_separated so) /\
+  (forall (k : positive) (zs : list Z), (Zpos k <= 5000)%Z -> onsets_separated (map (fun z => z # k) zs)).
+Proof. exact (conj groups_agree (conj sep_b_spec grid_separated)). Qed.
+Print Assumptions onset_groupings_agree.
+
+(* O1 end to end WITHOUT a grouping hypothesis: either built-in tempo curve, any non-empty score whose distinct
+   onsets are >= 2e-4 beat apart, any performance, any normalisation with a left inverse *)
+Theorem codec_roundtrip_separated :
+  forall (NP : Type) (scale : Q -> NP) (pmean : list NP -> NP) (rescale : NP -> Q) (npdefault : NP)
+         (log2 exp2 : Q -> Q),
+    (forall x k, 0 < x -> rescale (pmean (repeat (scale x) (S k))) == x) ->
+    (forall x, 0 < x -> exp2 (log2 x) == x) ->
+  forall (method : Z) (so sd po pd : list Q) (vel : list Z),
+    so <> [] -> List.length po = List.length so ->
+    onsets_separated so ->
+    let G := enc_groups so in
+    let bp := tempo_curve method (u_onsets so (map2 Qplus so sd) G) (u_onsets po (map2 Qplus po pd) G) in
+    let out := decode NP pmean rescale npdefault exp2 so sd (dec_groups so) (encode NP scale log2 so sd po pd vel G bp) in
+    (exists shift : Q, forall j, (j < List.length so)%nat -> fst (fst (nth j out (0, 0, 0%Z))) == nthQ po j + shift) /\
+    (forall j, (j < List.length so)%nat -> 0 < nthQ sd j -> 0 < nthQ pd j -> snd (fst (nth j out (0, 0, 0%Z))) == nthQ pd j) /\
+    (forall j, (j < List.length so)%nat -> snd (nth j out (0, 0, 0%Z)) = dec_vel (enc_vel (nth j vel 0%Z))).
+Proof. exact codec_roundtrip_separated_lemma. Qed.
+Print Assumptions codec_roundtrip_separated.
+
+(* decode_performance's glue around decode_time (np.isin filter of the score rows, stable lexsort by onset_div then
+   pitch applied to the score columns AND to the parameter rows, k-th output labelled snote_ids[k]): for a score note
+   array sorted by (onset_div, pitch) with unique ids, every score note matched at most once (the three decidable
+   hypotheses are evaluated on every generated case) and snote_ids in the order of to_matched_score (ties of onset
+   and pitch by position), the glue hands every id the decoding of ITS OWN score row and parameter row -- exactly
+   the list the PROPERTY comparison decode_ok evaluates.  Without the tie-break this is false
+   (Proofs/C18_glue.v decode_glue_needs_tiebreak: the defect class of 8007b35 / 1b32994) *)
+Theorem decode_glue_refines :
+  forall (sna : list srow) (pna : list prow) (al : list al_entry),
+    sna_sorted sna = true -> nodupb (map s_id sna) = true ->
+    nodupb (map (fun m => Z.of_nat (fst m)) (matched_idx (map s_id sna) (map C18.p_id pna) al)) = true ->
+  forall (normd : Z) (prm : list irow) (ncols : list (list Q)),
+    let sids := ms_ids sna pna al in
+    List.length (mkparams normd prm ncols) = List.length sids ->
+    dp_decode normd sna sids prm ncols
+    = direct_decode normd sna (pairs_by_ids sna (matched_idx (map s_id sna) (map C18.p_id pna) al) sids) sids prm ncols.
+Proof. exact decode_glue_refines_lemma. Qed.
+Print Assumptions decode_glue_refines.
+
+(* O3 in both directions at EVERY time: with at least two knots increasing in both coordinates the two maps are
+   inverse to each other -- between the knots and where the end segments extrapolate *)
+Theorem time_maps_inverse : forall k0 k1 K,
+  StronglySorted fst_lt (k0 :: k1 :: K) -> StronglySorted snd_lt (k0 :: k1 :: K) ->
+  (forall x, ptime_to_stime (k0 :: k1 :: K) (stime_to_ptime (k0 :: k1 :: K) x) == x) /\
+  (forall y, stime_to_ptime (k0 :: k1 :: K) (ptime_to_stime (k0 :: k1 :: K) y) == y).
+Proof. exact time_maps_inverse_lemma. Qed.
+Print Assumptions time_maps_inverse.
+
+(* O3 "interpolate": between two neighbouring knots of the time maps of ANY alignment the score-to-performance map
+   stays between the two mean performed onsets (monotone performance or not) *)
+Theorem time_map_between_knots : forall sna pna al rmo A u0 p0 u1 p1 B x,
+  tm_knots sna pna al rmo = A ++ (u0, p0) :: (u1, p1) :: B -> u0 <= x <= u1 ->
+  Qminb p0 p1 <= stime_to_ptime (tm_knots sna pna al rmo) x <= Qmaxb p0 p1.
+Proof.
+  exact (fun sna pna al rmo A u0 p0 u1 p1 B x E Hx =>
+           lin_interp_between _ A u0 p0 u1 p1 B x (tm_knots_sorted sna pna al rmo) E Hx).
+Qed.
+Print Assumptions time_map_between_knots.
+
+(* O2 rows: the k-th row of the matched score holds the score onset, duration, pitch of the k-th pair's score note
+   and the performed onset, duration (floored at 0.075 s, C18-K2) and velocity of its performed note *)
+Theorem matched_score_rows_spec : forall sna pna (Ms : list (nat * nat)),
+  List.length (mscore_rows sna pna Ms) = List.length Ms /\
+  forall k, (k < List.length Ms)%nat ->
+    let m := nth k Ms (O, O) in
+    let s := nth (fst m) sna sdefault in let p := nth (snd m) pna pdefault_row in
+    nth k (mscore_rows sna pna Ms) (mscore_row sna pna (O, O)) =
+      (s_on s, s_dur s, s_pitch s, p_on p, Qmaxb (p_dur p) floor_pdur, p_velo p).
+Proof. exact mscore_rows_spec. Qed.
+Print Assumptions matched_score_rows_spec.
+
+(* "within single-precision rounding": the decoder is Lipschitz in the stored parameters.  If every stored timing is
+   off by at most et and the beat period read for every score onset by at most eb (float32 storage: 2^-24 relative),
+   every decoded onset moves by at most 2 (et + eb * total score interval) and, for the same articulation parameter,
+   every decoded duration by at most |2^art * score duration| * eb; for increasing unique onsets the total interval
+   is the span of the score *)
+Theorem decode_rounding_bound :
+  forall (NP : Type) (pmean : list NP -> NP) (rescale : NP -> Q) (npdefault : NP) (exp2 : Q -> Q)
+         (so sd : list Q) (G : list (list nat)) (P P' : list (params NP)) (et eb : Q),
+    (forall j, (j < List.length so)%nat ->
+       Qabs (p_timing NP (nth j P' (pdefault NP npdefault)) - p_timing NP (nth j P (pdefault NP npdefault))) <= et) ->
+    (forall i, (i < List.length G)%nat ->
+       Qabs (dec_bp NP pmean rescale npdefault G P' i - dec_bp NP pmean rescale npdefault G P i) <= eb) ->
+    (forall j, (j < List.length so)%nat -> (gidx G j < List.length G)%nat) -> 0 <= eb ->
+    let span := abs_sum (diffs (dec_x so sd G)) (List.length G) in
+    (forall j, (j < List.length so)%nat ->
+       Qabs (fst (fst (nth j (decode NP pmean rescale npdefault exp2 so sd G P') (0, 0, 0%Z)))
+             - fst (fst (nth j (decode NP pmean rescale npdefault exp2 so sd G P) (0, 0, 0%Z)))) <= 2 * (et + eb * span)) /\
+    (forall j, (j < List.length so)%nat ->
+       p_art NP (nth j P' (pdefault NP npdefault)) = p_art NP (nth j P (pdefault NP npdefault)) ->
+       Qabs (snd (fst (nth j (decode NP pmean rescale npdefault exp2 so sd G P') (0, 0, 0%Z)))
+             - snd (fst (nth j (decode NP pmean rescale npdefault exp2 so sd G P) (0, 0, 0%Z))))
+       <= Qabs (exp2 (p_art NP (nth j P (pdefault NP npdefault))) * nthQ sd j) * eb) /\
+    (forall x, StronglySorted Qlt_r x -> forall k, (k < List.length x)%nat -> abs_sum (diffs x) k == nthQ x k - nthQ x 0).
+Proof. exact decode_rounding_bound_lemma. Qed.
+Print Assumptions decode_rounding_bound.
+
+(* state "normalisation table": the entries of TEMPO_NORMALIZATION of the working tree for the five normalisations
+   the property names (reflected into Gen/C18_norm.v on every run: index, role of each parameter column,
+   logarithmic or not) ARE the table of the model, and rescale_n is the rescale function the column roles describe
+   (value * std + mean, value * mean, value) *)
+Theorem normalisation_table_reflected :
+  c18_norm_table = norm_table_model /\
+  (forall idx roles lg c, In (idx, roles, lg) c18_norm_table -> List.length c = List.length roles ->
+     rescale_n idx c == rescale_roles roles c).
+Proof. exact norm_table_reflected_lemma. Qed.
+Print Assumptions normalisation_table_reflected.
